@@ -16,6 +16,7 @@ import json
 import logging
 import os
 import signal
+import psutil
 import sys
 
 T0 = 1000.0          # virtual epoch (seconds); now = T0 + now_ms / 1000
@@ -438,6 +439,14 @@ def body_of(resp):
         parts.append("numwatchers=%s" % resp["numwatchers"])
     if "watchers" in resp:
         parts.append("watchers=" + ",".join(enc(n) for n in resp["watchers"]))
+    if "infos" in resp and isinstance(resp["infos"], dict):
+        # stats without a name: which watchers, and which processes of each
+        parts.append("infos=" + ";".join("%s:%s" % (enc(n), _lst(list(i)) if isinstance(i, dict) else "?")
+                                         for n, i in resp["infos"].items()))
+    if "process" in resp and "info" in resp:
+        return "procinfo=%s" % resp["process"]
+    if "name" in resp and "info" in resp and isinstance(resp["info"], dict) and "started" not in resp["info"]:
+        return "stats=%s:%s" % (enc(resp["name"]) if isinstance(resp["name"], str) else "?", _lst(list(resp["info"])))
     if "statuses" in resp:
         parts.append("statuses=" + ",".join("%s:%s" % (enc(n), st) for n, st in resp["statuses"].items()))
     if "info" in resp:
@@ -529,6 +538,16 @@ class Sim(object):
                        (A, "time", A.time), (P, "time", P.time), (W, "tornado_sleep", W.tornado_sleep),
                        (A, "tornado_sleep", A.tornado_sleep), (A, "select", A.select), (W, "randint", W.randint)]
         A.select = _FakeSelect(self)
+        # psutil figures of a process (memory, cpu, …) are outside the model: one look at the process table, NoSuchProcess
+        # once the process is gone
+        kern = self.k
+
+        def get_info(process=None, interval=0, with_childs=False):
+            if kern.state_of(process.pid) == "g":
+                raise psutil.NoSuchProcess(process.pid)
+            return {"pid": process.pid}
+        self._saved.append((P, "get_info", P.get_info))
+        P.get_info = get_info
         # the jitter added to max_age is a parameter of the model, fixed to the least value the code asks for
         # (`randint(0, max_age_variance)`: nothing is added) — a worker is never expired before max_age
         W.randint = lambda a, b: a
